@@ -79,8 +79,9 @@ func (c *Conn) CloseRead(ctx context.Context) context.Context {
 		defer cancel()
 		defer c.close()
 		_, _, err := c.Reader(ctx)
-		if err == nil {
-			c.Close(StatusPolicyViolation, "unexpected data message")
+		if err == nil && c.casClosing() {
+			// Not c.Close: it waits for this goroutine to exit.
+			c.closeHandshake(StatusPolicyViolation, "unexpected data message")
 		}
 	}()
 	return ctx
